@@ -2,7 +2,7 @@ from common import T_COMMON
 
 CFG = dict(
     theorems=["op_frame", "op_writes_fresh_only", "step_valid", "step_immutable", "run_valid",
-              "history_immutable", "empty_valid", "appendInPlace_breaks"],
+              "history_immutable", "empty_valid", "derivations_commute_partial", "appendInPlace_breaks"],
     streams=[dict(name="c01", n=dict(quick=300, thorough=6000))],
     trusted=T_COMMON + [
         "C01 heap abstraction (Model/MeshHeap.lean): one untyped cell heap + map objects; the assignment of each public "
@@ -11,6 +11,9 @@ CFG = dict(
         "reflect/unsafe reading of (data pointer, len, cap) and map identity of unexported Mesh fields; Go's non-moving GC",
     ],
     residue=[
+        "derivations_commute_full (Props/C01.lean, stated as a def): that the value an operation returns does not depend on the heap layout "
+        "(hence on whether another derivation ran first) is NOT proved; proved part = derivations_commute_partial (no interference); "
+        "the rest is checked on the implementation by the c01.holds.rederive oracle and the value-level c01.append correspondence",
         "caller-owned slices/maps handed to NewMesh/Set*/SetFloatNData and the slice returned by Materials() are the caller's to leave alone (the harness never mutates them)",
         "concurrent use of one mesh from several goroutines is outside this property",
         "that each Go function belongs to the class it is modelled by is corresponded (sharing graph + value snapshots on generated histories), not proved from the Go source",
